@@ -46,6 +46,9 @@ class Result:
 def _model_dict(m, witness):
     out = {}
     for label, term in witness.items():
+        if not z3.is_expr(term):
+            out[label] = str(term)
+            continue
         try:
             out[label] = str(m.eval(term, model_completion=True))
         except Exception as e:      # pragma: no cover
